@@ -294,6 +294,13 @@ def run(ctx):
                 if isinstance(m, ast.Assign) and isinstance(m.value, ast.Call) and isinstance(m.value.func, ast.Attribute) and m.value.func.attr == "tc" \
                         and [dotted(x) for x in m.value.args] == [n.target.id, inner.target.id]:
                     tcv = m.targets[0].id
+                elif isinstance(m, ast.Assign) and isinstance(m.value, ast.Subscript) and isinstance(m.targets[0], ast.Name):
+                    # the cell accessor read in place: `<tbl>.tr_lst[row].tc_lst[col]`
+                    v_ = m.value
+                    if isinstance(v_.value, ast.Attribute) and v_.value.attr == "tc_lst" and isinstance(v_.value.value, ast.Subscript) \
+                            and isinstance(v_.value.value.value, ast.Attribute) and v_.value.value.value.attr == "tr_lst" \
+                            and [dotted(v_.value.value.slice), dotted(v_.slice)] == [n.target.id, inner.target.id]:
+                        tcv = m.targets[0].id
 
             def rng_bounds(call):
                 a_ = call.args
